@@ -61,6 +61,7 @@ def cases(seed, tier):
         d["bc"] = rng.choice(BCS) if d["method"] == "cspline" else "-"
         d["nx"] = rng.choice([2, 3, 4, 5, 6, 7, 8, 9, 10, 11, 12, 13, 16, 17, 24, 25, 33, 40])
         d["grid"] = rng.choice(ir.GRID_KINDS)
+        d["gridmod"] = rng.choice([None, None, None, None, "tiny", "jitter"])
         d["rank"] = rng.choice([1, 2, 2, 3, 3, 3, 4, 4])
         d["ax"] = rng.randrange(d["rank"])
         d["twin"] = int(d["rank"] >= 2 and d["nx"] <= 8 and rng.random() < 0.3)
@@ -144,6 +145,19 @@ def run_case(desc):
     dt = torch.float32 if f32 else torch.float64
     eps = float(torch.finfo(dt).eps)
     xnp = ir.make_grid(desc["grid"], nx, rng, float32=f32)
+    # scale / near-uniformity of the grid as dimensions of their own: positions in tiny units (spacings ~1e-9) and an almost
+    # equidistant grid (relative jitter 1e-6): the rules must use the given positions, whatever their scale
+    gm = desc.get("gridmod")
+    if gm == "tiny" and not f32:
+        xnp = xnp * 1e-9
+    elif gm == "jitter" and not f32 and nx >= 3:
+        base = np.linspace(xnp[0], xnp[-1], nx)
+        h0 = base[1] - base[0]
+        jit = np.array([rng.uniform(-1.0, 1.0) for _ in range(nx)]) * 1e-6 * h0
+        jit[0] = jit[-1] = 0.0
+        xnp = base + jit
+    if gm in ("tiny", "jitter") and not f32:
+        obs.count("gridmod_%s" % gm)
     st = ir.grid_stats(xnp)
     x = torch.tensor(xnp, dtype=dt)
     if not np.array_equal(x.double().numpy(), xnp):
